@@ -200,7 +200,7 @@ func gMentions(desc string, want bool, pred func(v ssa.Value) bool) guardPred {
 
 // requireGuards records one obligation per (site, predicate).
 func (c *Ctx) requireGuards(rule, keyPrefix string, site ssa.Instruction, preds ...guardPred) bool {
-	gs := guardsOf(site.Block())
+	gs := guardsOfDeep(site.Block())
 	all := true
 	for _, p := range preds {
 		ok := false
